@@ -23,6 +23,13 @@ def gen(rng, tier):
         elif kind == "diffgraph" and G["edges"]:
             e = [list(x) for x in G["edges"]]; e[rng.randrange(len(e))][2] += 1
             G2 = dict(G); G2["edges"] = e
+        if kind == "fired" and rng.random() < 0.35:
+            # a cycle (or a denser core) with a pendant path: the two divisors differ by ONE chip carried along the bridges of the tail (equivalent)
+            k = rng.randint(3, 5); t = rng.randint(1, 3); e = [(i, (i + 1) % k, rng.choice([1, 1, 2])) for i in range(k)] + [(k - 1 if i == 0 else k + i - 1, k + i, 1) for i in range(t)]
+            if rng.random() < 0.4: e.append((0, 2, 1)) if k >= 4 else None
+            G = common.mk_graph(k + t, [x for x in e if x], rng); G2 = G; n = G["n"]; D1 = common.random_divisor(rng, G)
+            a = rng.randrange(k - 1, k + t); b = rng.randrange(k - 1, k + t)      # both on the tail (k-1 is its foot on the core)
+            D2 = list(D1); D2[a] -= 1; D2[b] += 1; fam = "bridgechip"
         c = {"G": G, "G2": G2, "D1": D1, "D2": D2, "kind": kind, "fam": fam, "s": rng.randrange(1 << 30),
              "moves": [rng.randrange(n) for _ in range(rng.randint(0, 4))]}
         if kind in ("fired", "samedeg") and n >= 3:
